@@ -5,10 +5,12 @@ import (
 	"flag"
 	"fmt"
 	"os"
+	"path/filepath"
 	"sort"
 	"strings"
 	"time"
 
+	"gosym/drivers"
 	"gosym/interp"
 	"gosym/term"
 )
@@ -21,6 +23,12 @@ func main() {
 	switch os.Args[1] {
 	case "exec":
 		cmdExec(os.Args[2:])
+	case "worker":
+		drivers.Worker(os.Args[2], os.Args[3])
+	case "run":
+		os.Exit(cmdRun(os.Args[2:]))
+	case "replay":
+		os.Exit(cmdReplay(os.Args[2:]))
 	default:
 		fmt.Fprintln(os.Stderr, "unknown subcommand", os.Args[1])
 		os.Exit(2)
@@ -93,4 +101,84 @@ func cmdExec(args []string) {
 	out["funcs"] = fnames
 	b, _ := json.MarshalIndent(out, "", " ")
 	fmt.Println(string(b))
+}
+
+var checks = map[string]struct {
+	prep  func(*drivers.Ctx) (*drivers.Prepared, error)
+	level string
+}{
+	"C20": {drivers.PrepareC20, "model_checking"},
+}
+
+func newCtx(id, tier string) (*drivers.Ctx, func()) {
+	verif := os.Getenv("VERIF_DIR")
+	if verif == "" {
+		verif = "/verif"
+	}
+	repo := os.Getenv("VERIF_REPO")
+	if repo == "" {
+		repo = "/repo"
+	}
+	base := os.Getenv("VERIF_WORK")
+	if base == "" {
+		base = "/var/tmp"
+	}
+	work, err := os.MkdirTemp(base, "verif-work-")
+	if err != nil {
+		fmt.Fprintln(os.Stderr, err)
+		os.Exit(2)
+	}
+	var seed int64
+	fmt.Sscanf(os.Getenv("VERIF_SEED"), "%d", &seed)
+	par := 16
+	if s := os.Getenv("VERIF_PAR"); s != "" {
+		fmt.Sscanf(s, "%d", &par)
+	}
+	ctx := &drivers.Ctx{ID: id, Tier: tier, Seed: seed, Work: work, Par: par, Verif: verif, Repo: repo}
+	return ctx, func() { os.RemoveAll(work) }
+}
+
+func cmdRun(args []string) int {
+	if len(args) < 1 {
+		fmt.Fprintln(os.Stderr, "usage: vcheck run <property> [--tier quick|thorough] [--only substr]")
+		return 2
+	}
+	id := args[0]
+	fs := flag.NewFlagSet("run", flag.ExitOnError)
+	tier := fs.String("tier", "", "quick or thorough")
+	only := fs.String("only", "", "restrict to jobs whose name contains this")
+	fs.Parse(args[1:])
+	if *tier == "" {
+		*tier = os.Getenv("VERIF_TIER")
+	}
+	if *tier == "" {
+		*tier = "quick"
+	}
+	c, ok := checks[id]
+	if !ok {
+		fmt.Fprintln(os.Stderr, "unknown property", id)
+		return 2
+	}
+	ctx, cleanup := newCtx(id, *tier)
+	defer cleanup()
+	ctx.Only = *only
+	return drivers.RunCheck(ctx, c.prep, c.level)
+}
+
+func cmdReplay(args []string) int {
+	if len(args) < 1 {
+		fmt.Fprintln(os.Stderr, "usage: vcheck replay <dir>")
+		return 2
+	}
+	dir := args[0]
+	// the property id is the parent directory's name
+	id := filepath.Base(filepath.Dir(filepath.Clean(dir)))
+	c, ok := checks[id]
+	if !ok {
+		fmt.Fprintln(os.Stderr, "cannot determine property from", dir)
+		return 2
+	}
+	ctx, cleanup := newCtx(id, "quick")
+	defer cleanup()
+	return drivers.Replay(dir, ctx, c.prep)
 }
